@@ -1,5 +1,6 @@
 import Tau.Rule
 import Tau.Trace
+import Tau.Safe
 /-
   Driver — line protocol between the Rust harness and the executable model.
   One request per line, one reply per line. Strings travel as `s:<hex of UTF-8>`.
@@ -303,6 +304,13 @@ def handleCase (ic : Bool) (src : RuleSrc) (docs : List Value) (masks : List Nat
   match loadRule E ic src with
   | .error e => "load=err " ++ errName e
   | .ok r =>
+    -- a reachable panic site of the solver (unreachable!(), undefined identifier, cache index)
+    let anyHit := masks.any (fun m =>
+      let o := if m == 0 then r else r.optimise E (Switches.ofMask m)
+      docs.any (fun dv => match dv with
+        | .obj kvs => hitsTop E o.det.ids (.obj kvs) o.det.expr
+        | _ => false))
+    if anyHit then "PANIC model: evaluation reaches a panic site of the solver" else
     let head := s!"load=ok ; expr={exprSx r.det.expr} ; ids={idsSx r.det.ids}"
     let perMask := masks.map (fun m =>
       let o := if m == 0 then r else r.optimise E (Switches.ofMask m)
